@@ -64,6 +64,8 @@ def probes(stream, rng, exhaustive):
         gets = [[rng.choice(pts), rng.choice(list(range(0, smax + 3)) + [1000000])] for _ in range(120)]
         gets += [[2 * k, 1000000] for k in rng.sample(keys, min(60, len(keys)))]
         gets += [[2 * keys[-1], 1000000], [2 * keys[0], 1000000], [2 * keys[-1] + 1, 1000000], [1, 1000000]]
+        # the tail of a block is where the u8 restart-pointer / hash-index limits bite
+        gets += [[2 * k, 1000000] for k in keys[-12:]] + [[2 * k, 1000000] for k in keys[:4]]
 
     def bound():
         kd = rng.choice(["U", "I", "E"])
